@@ -239,3 +239,70 @@ PROPS['C03'] = {
                    'true only if an injective matching of pairwise different signatures to listed keys exists, and '
                    'exactly then for pairwise different keys',
 }
+
+
+LOCK_VM = ['functions.run_auth_scripts', 'functions.run_script', 'functions.run_tape', 'functions.OP_IF_ELSE',
+           'functions.OP_EVAL', 'functions.OP_DUP', 'functions.OP_SWAP', 'functions.OP_SHAKE256', 'functions.OP_SHA256',
+           'functions.OP_EQUAL_VERIFY', 'functions.OP_CHECK_SIG', 'functions.OP_CHECK_SIG_STACK', 'functions.OP_VERIFY',
+           'functions.OP_WRITE_CACHE', 'functions.OP_READ_CACHE', 'functions.OP_PUSH0', 'functions.OP_PUSH1',
+           'functions.OP_PUSH2', 'functions.OP_FALSE', 'functions.OP_TRUE', 'functions.set_tape_flags']
+LOCK_ASSUME = [
+    'compile step: the builder\'s bytes equal the byte template -- translation validation on seeded samples on every '
+    'run (bounded, labelled); the compiler itself is string code outside the solvers\' reach',
+    'OP_CHECK_SIG is applied through abs_check_sig (justified by the discharged lemma C03/abs-sound against the C02 '
+    'spec): it may fail for resource reasons (message longer than the item limit, full stack); `complete` clauses are '
+    'stated for runs in which no such failure occurs',
+    'negative clauses ("any witness made with a different key / over different sigfields is rejected") hold in the '
+    'form "accepted only if sig_valid(sigfields, flags, key, signature)"; that a different key cannot produce such a '
+    'signature is Ed25519 unforgeability (I-SIG), a probabilistic statement this family cannot decide',
+    'set_tape_flags: assumed contract (bounded stand-in in C09)',
+    'witness side: that the builders\' witnesses carry a valid signature is exercised natively by the bounded '
+    'checks; E4 (sign / verify correctness of libsodium) is assumed',
+]
+
+PROPS['C13'] = {
+    'functions': sorted(set(LOCK_VM + CLASSES + ERRORS)),
+    'select': [r'^lemma/C13/', r'^templates/', r'^functions\.(OP_CHECK_SIG|OP_CHECK_SIG_STACK|OP_IF_ELSE|OP_EVAL)/refine'],
+    'trusted_base': TRUSTED_COMMON + ['E4: Ed25519 verification is an uninterpreted predicate'],
+    'assumptions': ASSUME_COMMON + LOCK_ASSUME + [
+        'multisig lock: the instruction-level lemma is C03 (m, n <= 3 / 4); graftap: key path = taproot key path lemma, '
+        'script path = taproot script path lemma composed with the graftroot surrogate lemma (composition argued in '
+        'DESIGN.md 9, not machine-checked)'],
+    'extra': ['props.lemmas_locks:c13_locks'],
+    'explanation': 'for ALL keys, flag bytes, sigfields and witness bytes: run_auth_scripts([witness, lock]) executed from '
+                   'the real VM bodies on the builders\' byte templates accepts only if (and, absent resource failures, '
+                   'if) the unlocking condition of the property holds: single-sig (both layouts), scripthash, graftroot '
+                   'key and surrogate paths, taproot key path',
+}
+
+PROPS['C05'] = {
+    'functions': sorted(set(LOCK_VM + ['functions.OP_TAPROOT'] + HELPERS + CLASSES + ERRORS)),
+    'select': [r'^lemma/C05/', r'^templates/', r'^functions\.OP_TAPROOT/', r'^bounded/C05/',
+               r'^functions\.(clamp_scalar|derive_point_from_scalar|aggregate_points)/'],
+    'trusted_base': TRUSTED_COMMON + ['libsodium point / scalar arithmetic: uninterpreted functions with the argument checks '
+                                      'PyNaCl performs (E1-E3 not needed: the root is compared as computed)'],
+    'assumptions': ASSUME_COMMON + LOCK_ASSUME + [
+        'root identity against an independent pure-Python Ed25519, builders\' witnesses unlock, native vs non-native '
+        'equivalence: bounded stand-ins (labelled); the disagreement for committed scripts using handle 0 is finding D20'],
+    'extra': ['props.lemmas_locks:c05_locks', 'props.bounded:c05_taproot'],
+    'explanation': 'OP_TAPROOT body refines its spec (script path iff aggregate(derive(clamp(sha256(key || sha256(script)))), '
+                   'key) == root, else false with nothing evaluated; key path = CHECK_SIG against the root); lock-level '
+                   'lemmas: the committed script starts only if the pair recomputes to the root (and then it does); the '
+                   'key path accepts exactly valid signatures under the root',
+}
+
+PROPS['C04'] = {
+    'functions': sorted(set(LOCK_VM + ['functions.OP_MERKLEVAL', 'functions.OP_SWAP2', 'functions.OP_XOR',
+                                       'functions.xor'] + CLASSES + ERRORS)),
+    'select': [r'^lemma/C04/', r'^templates/', r'^functions\.OP_MERKLEVAL/', r'^functions\.xor/', r'^bounded/C04/'],
+    'trusted_base': TRUSTED_COMMON + ['sha256: uninterpreted function with 32-byte output'],
+    'assumptions': ASSUME_COMMON + LOCK_ASSUME + [
+        'trees deeper than one level, both tree builders, pack / unpack: bounded stand-in (random trees, recording '
+        'contract as first instruction of every leaf), labelled; the induction over tree depth (each level is an instance '
+        'of the one-level lemma, the inner lock being `OP_MERKLEVAL <inner root>`) is argued in DESIGN.md, not machine-checked',
+        'I-HASH / I-XOR: that a different (script, sibling) pair does not hash to the root is collision resistance'],
+    'extra': ['props.lemmas_locks:c04_locks', 'props.bounded:c04_trees'],
+    'explanation': 'OP_MERKLEVAL body refines "error, nothing evaluated, unless xor(sha256(sibling), sha256(sha256(script))) '
+                   '== root; then OP_EVAL(script)"; xor verified byte-wise by loop invariant; one-level lock / witness '
+                   'lemma: the supplied script starts only if it is committed, and then it does',
+}
